@@ -226,6 +226,38 @@ def ob_fallback(h):
         sl._get_piecewise_breakpoints, sl._rdp = old
 
 
+def ob_whole_curve(h):
+    """CALL-SITE contract of get_piecewise_data_points: the simplification (refinement, and the fall-back) is handed the caller's profile point for
+    point -- every sample, in the caller's order, vertical steps (equal enthalpy, different temperature) and plateaus included.  "Within the requested
+    deviation of the ORIGINAL profile" and "both end points kept" are statements about the caller's points; _rdp's contract (C17.rdp3.b) only speaks
+    about the points it is given."""
+    n = 4
+    xs, ys = h.reals("x", n), h.reals("y", n)
+    for i in range(n - 1):
+        h.assume(xs[i] <= xs[i + 1])          # enthalpy does not decrease along the profile; equal neighbours are a vertical step
+    seen = []
+
+    def f_refine(curve, epsilon, is_hot_stream):
+        seen.append(("refine", curve))
+        raise RuntimeError("refinement failed")          # forces the fall-back as well, so both call sites are recorded on one path
+
+    def f_rdp(curve, epsilon):
+        seen.append(("rdp", curve))
+        return curve
+    # the recorders stay in place in a replay too (they ARE the observation; the function under contract runs natively on real numpy)
+    old = (sl._get_piecewise_breakpoints, sl._rdp)
+    sl._get_piecewise_breakpoints, sl._rdp = f_refine, f_rdp
+    try:
+        sl.get_piecewise_data_points(curve=_arr2(h, [[xs[i], ys[i]] for i in range(n)]), is_hot_stream=True, dt_diff_max=0.5)
+    finally:
+        sl._get_piecewise_breakpoints, sl._rdp = old
+    h.check("both_call_sites_reached", [k for k, _ in seen] == ["refine", "rdp"])
+    for k, c in seen:
+        h.check("simplification_is_given_every_point_of_the_callers_profile", len(c) == n, note=k)
+        if len(c) == n:
+            h.check("simplification_is_given_the_callers_points_in_order", And(*[And(h.eq(c[i][0], xs[i]), h.eq(c[i][1], ys[i])) for i in range(n)]), note=k)
+
+
 def ob_refine_args(h):
     """_get_piecewise_breakpoints hands the caller's orientation and a tenth of the tolerance to the refinement (callees replaced by recorders)."""
     hot = h.choice("is_hot_stream", [True, False])
@@ -310,6 +342,9 @@ def obligations():
                    doc="call-site contract: the one-sided refinement receives is_hot_stream and epsilon / 10"),
         Obligation("C17.retry", ob_retry, kind="proof", functions=[sl._get_piecewise_breakpoints], stubs=("_rdp", "_refine_pw_points_for_heating_or_cooling (recorders)"),
                    doc="call-site contract of the retry loop: tighter tolerance per round, at most ten rounds, last result returned"),
+        Obligation("C17.whole_curve", ob_whole_curve, kind="proof", functions=[sl.get_piecewise_data_points], stubs=("_get_piecewise_breakpoints", "_rdp (recorders; contracts C17.rdp3.b, C17.refine.args)"),
+                   expect=("simplification_is_given_every_point_of_the_callers_profile",),
+                   doc="CALL-SITE: the simplification is handed the caller's profile point for point (4 points, all coordinates symbolic, vertical steps included)"),
         Obligation("C17.fallback", ob_fallback, kind="proof", functions=[sl.get_piecewise_data_points], stubs=("_get_piecewise_breakpoints", "_rdp")),
     ]
     obs += split(Obligation("C17.clean5.b", _ob_clean(5), kind="bounded", tier="thorough", bound="composite curves of 5 points", functions=fc, max_paths=2000000), points=[5])
